@@ -405,9 +405,10 @@ class FileResponse(Response, FileResponseMixin):
         try:
             ranges = self.parse_range(http_range, file_size)
         except (MalformedRangeHeader, RangeNotSatisfiable) as exception:
+            self.headers.update(exception.headers or {})
             start_response(
                 StatusStringMapping[exception.status_code],
-                [*(exception.headers or {}).items()],
+                self.list_headers(as_bytes=False),
             )
             if exception.content is None or send_header_only:
                 yield b""
